@@ -267,6 +267,46 @@ def _moved_from(b, guards):
     return out
 
 
+def r9f(fb, rep):
+    R = "R9f"
+    rep.rule(R, "self-dependency detection: the identity stored in Blackhole and the identity it is compared with have the same source")
+    WV = "gluon_vm::api::WithVM"
+    done = False
+    for b in fb.bodies.values():
+        if b.kind == "coroutine_post":
+            continue
+        stores = [(i, rv, ln) for i, j, pl, rv, ln in b.assigns() if rv[0] == "agg" and rv[1][0] == "adt" and rv[1][1] == LAZY_ and rv[1][2] == "Blackhole"]
+        if not stores:
+            continue
+        done = True
+        for i, rv, ln in stores:
+            w = flow.sources(b, rv[2][0])
+            w_ident = {s for s in w if s[0] == "field" and s[2] in ("vm", "thread")}
+            # the comparison(s) that read Blackhole.0
+            readers = []
+            for i2, j2, pl2, rv2, ln2 in b.assigns():
+                if rv2[0] == "bin" and rv2[1] in ("Eq", "Ne"):
+                    sa, sb = flow.sources(b, rv2[2]), flow.sources(b, rv2[3])
+                    if ("vfield", LAZY_, "Blackhole", "0") in sa:
+                        readers.append((sb, ln2))
+                    elif ("vfield", LAZY_, "Blackhole", "0") in sb:
+                        readers.append((sa, ln2))
+            if not readers:
+                rep.violation(R, "no-loop-test|%s" % b.id, "%s stores Blackhole but never compares the stored identity: a self-dependent lazy value cannot be detected" % b.id, "%s:%s" % (b.file, ln))
+                continue
+            for other, ln2 in readers:
+                r_ident = {s for s in other if s[0] == "field" and s[2] in ("vm", "thread")}
+                if w_ident and w_ident == r_ident:
+                    rep.ok(R, "%s: Blackhole records %s and the <<loop>> test compares with the same identity" % (b.id, sorted(x[1].rsplit("::", 1)[1] + "." + x[2] for x in w_ident)))
+                else:
+                    rep.violation(R, "blackhole-identity-mismatch|%s" % b.id,
+                                  "%s records %s in the Blackhole but compares it with %s: a self-dependent force from another thread waits forever (or a legitimate wait reports <<loop>>)" % (
+                                      b.id, sorted(x[1].rsplit("::", 1)[1] + "." + x[2] for x in w_ident), sorted(x[1].rsplit("::", 1)[1] + "." + x[2] for x in r_ident)),
+                                  "%s:%s" % (b.file, ln2))
+    if not done:
+        rep.anchor_lost(R, "Blackhole construction")
+
+
 def run(fb, rep, tier, cfg):
     rep.explanation = (
         "Static analysis of gluon_vm's MIR (coroutines in their pre-state-transform form). R9a: the coroutine started after "
@@ -283,4 +323,5 @@ def run(fb, rep, tier, cfg):
     r9c(fb, rep)
     r9d(fb, rep)
     r9e(fb, rep)
+    r9f(fb, rep)
     e4.cells(fb, rep, rule="R9d")
